@@ -69,8 +69,12 @@ func New(logger zerolog.Logger, proxies ...string) func(http.Handler) http.Handl
 			} else {
 				ipHolders = append(ipHolders, ipNet)
 			}
+		} else if ip := net.ParseIP(ipAddr); ip == nil {
+			// an unparsable entry must not become simpleIP(nil): nil.Equal(nil) is true, so every
+			// peer whose address cannot be parsed (zoned IPv6, unix socket) would be trusted
+			logger.Warn().Msgf("Trusted proxies IP %q could not be parsed", ipAddr)
 		} else {
-			ipHolders = append(ipHolders, simpleIP(net.ParseIP(ipAddr)))
+			ipHolders = append(ipHolders, simpleIP(ip))
 		}
 	}
 
